@@ -705,6 +705,9 @@ func runMrFx(c Case, mon *monitor) {
 		atomic.AddInt32(g, -1)
 	}
 	items := 40 + 10*c.N
+	// ONE option value of each package, shared by all the calls below (an option must not carry state)
+	mo := mr.WithWorkers(c.N)
+	fo := fx.WithWorkers(c.N)
 	gen := func(source chan<- int) {
 		for i := 0; i < items; i++ {
 			source <- i
@@ -722,11 +725,11 @@ func runMrFx(c Case, mon *monitor) {
 		}
 		w.Write(s)
 	}
-	mr.ForEach(gen, func(item int) { work("mr.ForEach", item) }, mr.WithWorkers(c.N))
+	mr.ForEach(gen, func(item int) { work("mr.ForEach", item) }, mo)
 	_, _ = mr.MapReduce(gen, func(item int, w mr.Writer[int], cancel func(error)) {
 		work("mr.MapReduce", item)
 		w.Write(item)
-	}, reducer, mr.WithWorkers(c.N))
+	}, reducer, mo)
 	// cancelled half way: the cap must hold for the mappers still running
 	_, _ = mr.MapReduce(gen, func(item int, w mr.Writer[int], cancel func(error)) {
 		work("mr.MapReduce(cancel)", item)
@@ -734,7 +737,7 @@ func runMrFx(c Case, mon *monitor) {
 			cancel(fmt.Errorf("stop"))
 		}
 		w.Write(item)
-	}, reducer, mr.WithWorkers(c.N))
+	}, reducer, mo)
 	// the caller's context dies half way
 	ctx, stop := context.WithCancel(context.Background())
 	_, _ = mr.MapReduce(gen, func(item int, w mr.Writer[int], cancel func(error)) {
@@ -743,7 +746,7 @@ func runMrFx(c Case, mon *monitor) {
 			stop()
 		}
 		w.Write(item)
-	}, reducer, mr.WithContext(ctx), mr.WithWorkers(c.N))
+	}, reducer, mr.WithContext(ctx), mo)
 	stop()
 	_ = mr.MapReduceVoid(gen, func(item int, w mr.Writer[int], cancel func(error)) {
 		work("mr.MapReduceVoid", item)
@@ -751,7 +754,7 @@ func runMrFx(c Case, mon *monitor) {
 	}, func(pipe <-chan int, cancel func(error)) {
 		for range pipe {
 		}
-	}, mr.WithWorkers(c.N))
+	}, mo)
 	src := make(chan int)
 	go func() {
 		gen(src)
@@ -760,7 +763,7 @@ func runMrFx(c Case, mon *monitor) {
 	_, _ = mr.MapReduceChan(src, func(item int, w mr.Writer[int], cancel func(error)) {
 		work("mr.MapReduceChan", item)
 		w.Write(item)
-	}, reducer, mr.WithWorkers(c.N))
+	}, reducer, mo)
 	fns := make([]func() error, c.N)
 	vfns := make([]func(), c.N)
 	for i := range fns {
@@ -773,10 +776,10 @@ func runMrFx(c Case, mon *monitor) {
 	fx.From(fxgen).Walk(func(item any, pipe chan<- any) {
 		work("fx.Walk", item.(int))
 		pipe <- item
-	}, fx.WithWorkers(c.N)).Done()
-	fx.From(fxgen).Parallel(func(item any) { work("fx.Parallel", item.(int)) }, fx.WithWorkers(c.N))
-	fx.From(fxgen).Map(func(item any) any { work("fx.Map", item.(int)); return item }, fx.WithWorkers(c.N)).
-		Filter(func(item any) bool { work("fx.Filter", item.(int)); return true }, fx.WithWorkers(c.N)).Done()
+	}, fo).Done()
+	fx.From(fxgen).Parallel(func(item any) { work("fx.Parallel", item.(int)) }, fo)
+	fx.From(fxgen).Map(func(item any) any { work("fx.Map", item.(int)); return item }, fo).
+		Filter(func(item any) bool { work("fx.Filter", item.(int)); return true }, fo).Done()
 	threading.NewWorkerGroup(func() { work("WorkerGroup", 1) }, c.N).Start()
 }
 
